@@ -273,6 +273,29 @@ theorem code_stream_roundtrip {α δ : Type} (A : AEAD) (hA : A.Correct) (hN : A
   subst he
   exact ⟨w1, w2, g', hw, hc, by rw [hacc]; exact hsr⟩
 
+/-- the reading half on its own: the translated reader over the canonical encryption of `pt` returns `pt`, then io.EOF -/
+theorem code_stream_read_back {α : Type} (A : AEAD) (hA : A.Correct) (hN : A.NonceSep) (k : Bytes) (E : AeadEnv α A k) (a : α)
+    (pt : Bytes) (hlen : pt.length < 2 ^ 64) (sizes : List Nat) (hpos : ∀ s ∈ sizes, 0 < s)
+    (hlong : pt.length + (encrypt A 65536 k pt).length + 1 < sizes.length) :
+    ∃ r', streamReads E ⟨a, ⟨encrypt A 65536 k pt, false⟩, 0, 0, List.replicate 65552 0, none, List.replicate 12 0⟩ sizes =
+      .ok (r', pt, Go.io_EOF) := by
+  have hrt := Props.C01.stream_roundtrip A hA hN 65536 (by decide) k pt
+  have hdec : dec A 65536 k false 0 (encrypt A 65536 k pt) = (pt, .eof) := hrt
+  have hcl : (encrypt A 65536 k pt).length < 2 ^ 88 - 1 := by
+    have := enc_length_le A k E.hSealLen _ 0 pt (Nat.le_refl _)
+    rw [← encrypt_eq_enc] at this
+    omega
+  obtain ⟨r', hdr⟩ := Props.C12.reader_refines_spec A 65536 (2 ^ 88) (by omega) k (encrypt A 65536 k pt) false
+    (by omega) sizes hpos (by rw [hdec]; exact hlong)
+  rw [hdec] at hdr
+  have hb : (Reader.new ⟨encrypt A 65536 k pt, false⟩).Bounded (2 ^ 88 - 1) := by
+    unfold Reader.Bounded; simp only [Reader.new]; omega
+  obtain ⟨g', ge, hsr, he, _⟩ := streamReads_tie A k E sizes _ _ (reader_new_rel a (encrypt A 65536 k pt) false) hb
+  rw [hdr] at hsr he
+  simp only [rdErrRel, rdErr] at he
+  subst he
+  exact ⟨g', hsr⟩
+
 /-- an outcome whose Go error is io.EOF is the clean end -/
 theorem rdErrRel_eof (o : Outcome) (h : rdErrRel Go.io_EOF (some o)) : o = .eof := by
   cases o <;> simp [rdErrRel, rdErr, Go.io_EOF, Go.io_ErrUnexpectedEOF, Go.io_srcErr] at h ⊢
